@@ -149,6 +149,24 @@ func (c *SimConn) Fail(err error) { c.pendErr = err }
 
 func (c *SimConn) Size() int { return c.w - c.r }
 
+// Release is what event-loop network libraries offer on their readers ("the slices handed out so far may be
+// recycled"): everything in front of the cursor is given back and overwritten. Nothing in the harness calls it; a
+// codec that does so on behalf of its caller destroys the frame it is about to return.
+func (c *SimConn) Release() error {
+	for i := 0; i < c.r && i < len(c.buf); i++ {
+		c.buf[i] = poison
+	}
+	for _, v := range c.views {
+		for i := range v {
+			v[i] = poison
+		}
+	}
+	for i := range c.scratch[:cap(c.scratch)] {
+		c.scratch[:cap(c.scratch)][i] = poison
+	}
+	return nil
+}
+
 // Unread is for the harness only: the buffered octets, without any of the effects a Peek has.
 func (c *SimConn) Unread() []byte { return c.buf[c.r:c.w] }
 
